@@ -106,7 +106,7 @@ impl Property for C20 {
     }
     fn runs(&self, tier: &str) -> u64 {
         if tier == "thorough" {
-            60_000
+            400_000
         } else {
             4_000
         }
